@@ -5,7 +5,7 @@
    to it; NoDup of the targets = no intermediate node twice (hence no edge occurrence twice: the root is entered by
    the last edge only). Undirected (d = DAdj): the same statement reads "a closed walk of accepted half-edges". *)
 From Gdsl.Model Require Import Spec Callback.
-From Gdsl.Proofs Require Import Worklist Bfs Descend SearchGlue.
+From Gdsl.Proofs Require Import Worklist Bfs Descend SearchGlue CycleUndirected.
 
 (* breadth-/priority-first: a returned cycle starts and ends at the root, consists of accepted stored edges joined end to start, and its targets are pairwise distinct *)
 Theorem c09_cycle_sound_bfs_pfs :
@@ -108,6 +108,62 @@ Theorem c09_no_panic_bfs_pfs :
        k <> KDfs -> snd (search_path keqb cb vleb k d fuel h c0 root t cyc) <> RPanic E.
 Proof. exact wlq_no_panic. Qed.
 Print Assumptions c09_no_panic_bfs_pfs.
+
+(* fuel_bound suffices, also in cycle mode (cyc = true): the search terminates *)
+Theorem c09_terminates_bfs_pfs :
+  forall (K V E : Type) (keqb : K -> K -> bool),
+       KeqbSpec keqb ->
+       forall (CB : Type) (cb : CB -> heap K V E -> edge E -> CB * heap K V E * bool)
+         (accept : edge E -> bool) (vleb : V -> V -> bool) (h : heap K V E),
+       Wf h ->
+       KeysInj h ->
+       PureCb h cb accept ->
+       forall (d : dir) (root : nat),
+       root < size h ->
+       forall (c0 : CB) (k : kind) (fuel : nat) (t : option K) (cyc : bool),
+       k <> KDfs ->
+       fuel_bound h <= fuel ->
+       snd (search_path keqb cb vleb k d fuel h c0 root t cyc) <> RFuel E /\
+       snd (search_find keqb cb vleb k d fuel h c0 root t) <> RFuel E.
+Proof. exact wlq_terminates. Qed.
+Print Assumptions c09_terminates_bfs_pfs.
+
+(* depth-first: same *)
+Theorem c09_terminates_dfs :
+  forall (K V E : Type) (keqb : K -> K -> bool),
+       KeqbSpec keqb ->
+       forall (CB : Type) (cb : CB -> heap K V E -> edge E -> CB * heap K V E * bool)
+         (accept : edge E -> bool) (vleb : V -> V -> bool) (h : heap K V E),
+       Wf h ->
+       KeysInj h ->
+       PureCb h cb accept ->
+       forall (d : dir) (root : nat),
+       root < size h ->
+       forall (c0 : CB) (fuel : nat) (t : option K) (cyc post : bool),
+       fuel_bound h <= fuel ->
+       snd (search_path keqb cb vleb KDfs d fuel h c0 root t cyc) <> RFuel E /\
+       snd (search_find keqb cb vleb KDfs d fuel h c0 root t) <> RFuel E /\
+       snd (order_edges keqb cb d post fuel h c0 root) <> None /\
+       snd (order_nodes keqb cb d post fuel h c0 root) <> None.
+Proof. exact dfs_terminates. Qed.
+Print Assumptions c09_terminates_dfs.
+
+(* undirected, without a filter, on a graph whose half-edges are mirrored (C02): search_cycle of every kind returns a cycle exactly when the root has an incident edge *)
+Theorem c09_undirected_cycle_iff_incident :
+  forall (K V E : Type) (keqb : K -> K -> bool) (CB : Type)
+         (cb : CB -> heap K V E -> edge E -> CB * heap K V E * bool) (vleb : V -> V -> bool),
+       KeqbSpec keqb ->
+       forall (h : heap K V E) (root : nat) (k : kind) (fuel : nat) (c0 : CB) (t : option K),
+       Wf h ->
+       KeysInj h ->
+       Mirror h ->
+       PureCb h cb (accept_all (E:=E)) ->
+       root < size h ->
+       fuel_bound h <= fuel ->
+       (exists p : list (edge E), snd (search_path keqb cb vleb k DAdj fuel h c0 root t true) = RPath p) <->
+       adj_of h DAdj root <> [].
+Proof. exact undirected_cycle_iff_incident. Qed.
+Print Assumptions c09_undirected_cycle_iff_incident.
 
 (* never the unwrap() panic of backtrack_edge_tree (depth-first) *)
 Theorem c09_no_panic_dfs :
